@@ -122,11 +122,6 @@ Definition tv_is_tag (v : val) (s : string) : bool :=
   match v with VT t => String.eqb t s | _ => false end.
 Definition tv_fail (clause cls : string) : val := VL [VT "FAIL"; VT clause; VT cls].
 
-Fixpoint has_repeat (seen : list bytes) (bs : list block) : bool :=
-  match bs with
-  | [] => false
-  | b :: t => mem (fst b) seen || has_repeat (fst b :: seen) t
-  end.
 Definition trace_class (tr : trace) : string :=
   if has_repeat [] (blocks_of (t_loads tr)) then "repeated-loads" else "no-repeats".
 
